@@ -119,6 +119,9 @@ type Violation struct {
 	// Fatal: the process cannot go on after this one (a call that never returns): the case is
 	// saved and reported at once, without shrinking.
 	Fatal bool `json:"-"`
+	// External marks a verdict that involved a child process or a toolchain: when it does not
+	// reproduce it stays inconclusive even under a collector declared pure.
+	External bool `json:"-"`
 }
 
 func (v Violation) String() string { return v.Signature + ": " + v.Detail }
@@ -145,7 +148,20 @@ type Collector struct {
 	survey     map[string]*surveyRec
 	curTags    []string
 	recheck    func(kase any) []Violation
+	pure       bool
+	ring       []any    // the last cases evaluated in this process, oldest first
+	firstFail  *failRec // the first failure of the run, before shrinking, with the calls before it
 }
+
+// SetPure declares that the oracle only calls deterministic in-process functions of the code
+// under test (no toolchain, no child process, no clock). A failure that does not reproduce when
+// the same case is evaluated again is then not noise: the functions returned the violating
+// result, and what they return for an input depends on the calls made before it. finish looks
+// for the shortest run of preceding cases that brings the failure back (saved as "history" in
+// the replay file) and reports the violation in either case.
+func (c *Collector) SetPure() { c.pure = true }
+
+const ringSize = 12
 
 // SetRecheck installs the oracle used to confirm a shrunk counterexample once more before it
 // is reported: a failure that does not reproduce (machine load, a killed compiler) must end
@@ -163,6 +179,8 @@ type surveyRec struct {
 func (c *Collector) SetTags(tags []string) { c.mu.Lock(); c.curTags = tags; c.mu.Unlock() }
 
 type failRec struct {
+	Hist []any // pure collectors: the cases evaluated before this one, oldest first
+	Need bool  // the failure only comes back after evaluating Hist: keep it in the replay file
 	Case any
 	V    Violation
 }
@@ -282,6 +300,16 @@ func (c *Collector) Report(t TB, kase any, vs []Violation) {
 		c.mu.Unlock()
 		return
 	}
+	var hist []any
+	if c.pure {
+		c.mu.Lock()
+		hist = append([]any{}, c.ring...)
+		c.ring = append(c.ring, kase)
+		if len(c.ring) > ringSize {
+			c.ring = c.ring[len(c.ring)-ringSize:]
+		}
+		c.mu.Unlock()
+	}
 	for _, v := range vs {
 		if f, ok := c.knownOpen[v.Signature]; ok {
 			c.mu.Lock()
@@ -290,7 +318,10 @@ func (c *Collector) Report(t TB, kase any, vs []Violation) {
 			continue
 		}
 		c.mu.Lock()
-		c.lastFail = &failRec{Case: kase, V: v}
+		c.lastFail = &failRec{Case: kase, V: v, Hist: hist}
+		if c.firstFail == nil {
+			c.firstFail = c.lastFail
+		}
 		c.mu.Unlock()
 		if v.Fatal {
 			c.violations++
@@ -424,7 +455,9 @@ func (c *Collector) finish(t *testing.T) {
 				}
 			}
 		}()
-		if !confirmed {
+		if !confirmed && c.pure && !c.lastFail.V.External {
+			c.historyDependent()
+		} else if !confirmed {
 			printf("NOT-REPRODUCED property=%s a failure (%s) did not reproduce when re-evaluated twice; treated as inconclusive\n", c.ID, c.lastFail.V.Signature)
 			c.writeEvidence()
 			os.Exit(2)
@@ -439,11 +472,54 @@ func (c *Collector) finish(t *testing.T) {
 	c.writeEvidence()
 }
 
+// historyDependent handles a failure of a pure oracle that does not come back when its case
+// is evaluated on its own: the result for that input depends on earlier calls in the process.
+// It replays ever longer runs of the cases that preceded the failure (first the original
+// failure, then the shrunk one) until the failure returns, and keeps that run as the replay's
+// history. When no run of the remembered cases brings it back, the violation observed is
+// reported as it was seen (the functions did return it), marked as not reproducible alone.
+func (c *Collector) historyDependent() {
+	same := func(vs []Violation, sig string) bool {
+		for _, v := range vs {
+			if v.Signature == sig {
+				return true
+			}
+		}
+		return false
+	}
+	for _, f := range []*failRec{c.firstFail, c.lastFail} {
+		if f == nil {
+			continue
+		}
+		for k := 1; k <= len(f.Hist); k++ {
+			run := f.Hist[len(f.Hist)-k:]
+			ok := false
+			func() {
+				defer func() { _ = recover() }()
+				for _, h := range run {
+					c.recheck(h)
+				}
+				ok = same(c.recheck(f.Case), f.V.Signature)
+			}()
+			if ok {
+				c.lastFail = &failRec{Case: f.Case, V: f.V, Hist: append([]any{}, run...), Need: true}
+				c.lastFail.V.Detail += fmt.Sprintf(" [only after %d earlier call(s) in the same process: the result depends on process history]", k)
+				return
+			}
+		}
+	}
+	c.lastFail = &failRec{Case: c.firstFail.Case, V: c.firstFail.V}
+	c.lastFail.V.Detail += " [observed once; the same input gives another result when evaluated again: the result depends on process history]"
+}
+
 func (c *Collector) saveReplay() {
 	{
 		dir := filepath.Join(Root(), "replays", c.ID)
 		_ = os.MkdirAll(dir, 0o755)
 		rec := map[string]any{"property": c.ID, "signature": c.lastFail.V.Signature, "detail": c.lastFail.V.Detail, "case": c.lastFail.Case}
+		if c.lastFail.Need {
+			rec["history"] = c.lastFail.Hist
+		}
 		b, _ := json.MarshalIndent(rec, "", " ")
 		path := filepath.Join(dir, Hash(b)+".json")
 		_ = os.WriteFile(path, b, 0o644)
@@ -509,6 +585,20 @@ func LoadReplay(path string) (json.RawMessage, error) {
 		return rec.Case, nil
 	}
 	return b, nil
+}
+
+// LoadReplayHistory reads the "history" member of a replay file: the cases to evaluate, in
+// order, before the case itself (history-dependent failures of pure oracles).
+func LoadReplayHistory(path string) []json.RawMessage {
+	b, err := os.ReadFile(path)
+	if err != nil {
+		return nil
+	}
+	var rec struct {
+		History []json.RawMessage `json:"history"`
+	}
+	_ = json.Unmarshal(b, &rec)
+	return rec.History
 }
 
 // ReplayPath is set by the driver for --replay.
